@@ -23,7 +23,9 @@ Local Open Scope N_scope.
 (* ---------------------------------------------------------------- versions *)
 
 Definition ver_ocmp (a b : N) : option comparison :=
-  match serial_partial_cmp a b with Ok c => c | _ => None end.
+  if version_order_is_serial
+  then match serial_partial_cmp a b with Ok c => c | _ => None end
+  else Some (a ?= b).
 
 (* `a OP b` on Version; OP is the operator read from the source by T1
    (0 <=, 1 <, 2 ==, 3 >=, 4 >, 5 !=).  == and != are the derived PartialEq on u32. *)
@@ -327,13 +329,16 @@ Definition publish (s : zstate) (w : writer) : zstate :=
       (if w_open w then Some (w_new w) else z_handle s).
 
 (* commit(true): if the published version has a SOA and the new version has none
-   or the same one, a SOA with serial + 1 is stored at the new version
-   (an SOA RRset is identified with its serial here; serial 0 is not used) *)
+   or the same one, a SOA with serial + 1 (Serial::add, i.e. C17's wrapping
+   serial_add) is stored at the new version.  An SOA RRset is identified with its
+   serial; the bumped RRset is never empty, so it is stored by Versioned::update
+   directly: a stored value 0 is the SOA with serial 0, whereas an *update* with
+   RRset 0 (the empty RRset) removes. *)
 Definition bump_soa (s : zstate) (w : writer) : zstate :=
   match rs_get (z_apex s) 6 (z_cur s) with
   | Some old =>
       if (match rs_get (z_apex s) 6 (w_new w) with None => true | Some new => new =? old end)
-      then set_apex s (rs_update (z_apex s) 6 (ver_next old) (w_new w))
+      then set_apex s (rs_at 6 (fun d => v_update d (w_new w) (ver_next old)) (z_apex s))
       else s
   | None => s
   end.
@@ -595,6 +600,17 @@ Definition zv_step (z : zversions) (o : zv_op) : zversions :=
   end.
 
 Definition zv_run (os : list zv_op) : zversions := fold_left zv_step os zv_default.
+
+(* observation of a ZoneVersions history: after every operation the versions
+   listed in `all`, and for a cleaning its result *)
+Definition c09_versions (os : list zv_op) : list (list N * option (option N)) :=
+  (fix go (z : zversions) (os : list zv_op) :=
+     match os with
+     | [] => []
+     | o :: tl =>
+         let z' := zv_step z o in
+         (map fst (zv_all z'), match o with VClean => Some (snd (zv_clean z)) | _ => None end) :: go z' tl
+     end) zv_default os.
 
 (* entry points for the correspondence driver *)
 Definition c09_cell (os : list (cop N)) (probes : list N) : list (list (N * option N) * list (option N)) :=
